@@ -7,7 +7,7 @@ from typing import List, Optional
 
 from ..cfg import cfg_of
 from ..dataflow import expr_closure
-from ..guards import fact_calls, guard_facts, guarded_names, same_defs
+from ..guards import fact_calls, flag_values, guard_facts, guarded_names, same_defs
 from ..model import (AnalysisError, Model, calls_in, callee_tail, find_calls, kwarg, names_in, norm, short, walk_body)
 from ..report import RULES, RuleResult
 from .spaces_common import report
@@ -55,7 +55,7 @@ def r06b_impl(model: Model, rr: RuleResult):
         raise AnalysisError("_update_paint_glyph: reuse return not found")
     rn = wcfg.node_for(rr_ret[0])
     facts = guard_facts(wcfg, rn)
-    if any(isinstance(e, ast.Name) and e.id == "overflows" and pol is False for e, pol in facts):
+    if flag_values(facts).get("overflows") is False:
         rr.ok("reuse wrapper is returned only when `overflows` is false")
     else:
         rr.bad(wf, rr_ret[0], "the reuse wrapper is returned although the counter-transform of the gradient may overflow", construct="reuse return not guarded by `not overflows`")
@@ -228,7 +228,8 @@ def r19b(model: Model, rr: RuleResult):
     rets = [st for st in walk_body(wf) if isinstance(st, ast.Return) and isinstance(st.value, ast.Call) and norm(st.value.func) == "transformed"]
     if len(rets) != 1:
         raise AnalysisError("_update_paint_glyph: reuse return not found")
-    facts = [(norm(e), pol) for e, pol in guard_facts(cfg, cfg.node_for(rets[0]), skip_abort_guards=True)]
+    rawf = guard_facts(cfg, cfg.node_for(rets[0]), skip_abort_guards=True)
+    facts = [(norm(e), pol) for e, pol in rawf if not (flag_values([(e, pol)]).get("overflows") is False)]
     allowed = {("reuse_result is not None", True), ("reuse_result is None", False), ("overflows", False),
                ("paint.format != PaintGlyph.format", False), ("paint.format == PaintGlyph.format", True),
                ("glyph_cache.is_known_glyph(paint.glyph)", False)}
